@@ -326,8 +326,16 @@ def _get_next_fragment(cname):
             return nxt
         log = OpaqueLog(E, returns={'__next__': gen_next})
         gen = SOpaque('generator', 'fragment_generator')
-        E.stubs['rsocket/frame_fragmenter.py::data_to_fragments_if_required'] = \
-            lambda E_, f, a, k: (made.append((a, k)), gen)[1]
+        def bind(E_, f, a, k):
+            # the callee's parameters by NAME, however they were passed (positionally, by keyword, or left to the default)
+            names = [x.arg for x in f.node.args.args]
+            vals = dict(zip(names, a))
+            vals.update(k)
+            for nm, dv in zip(names[len(names) - len(f.defaults):], f.defaults):
+                vals.setdefault(nm, dv)
+            made.append(vals)
+            return gen
+        E.stubs['rsocket/frame_fragmenter.py::data_to_fragments_if_required'] = bind
         built = []
         E.stubs[FR + 'new_frame_fragment'] = lambda E_, f, a, k: (built.append(a), SOpaque('frame', 'fragment-frame'))[1]
         already = E.path.choice(2, 'generator-exists') == 1
@@ -340,9 +348,12 @@ def _get_next_fragment(cname):
             P('next_fragment:generator_created_once', len(made) == 0)
         else:
             P('next_fragment:generator_created_from_own_payload',
-              len(made) == 1 and made[0][0][0] is data and made[0][0][1] is md and made[0][0][2] == FRAGMENTABLE[cname]
-              and made[0][0][4] is lh and not made[0][1])
-            size_arg = made[0][0][3] if len(made) == 1 and len(made[0][0]) > 3 else fs
+              len(made) == 1 and made[0].get('data') is data and made[0].get('metadata') is md
+              and made[0].get('first_frame_header_size') == FRAGMENTABLE[cname])
+            fl = made[0].get('frame_length_required') if len(made) == 1 else None
+            P('next_fragment:fragmenter_is_told_the_framing_mode_of_the_transport[the 3-byte length prefix counts only where it exists]',
+              fl is lh or (isinstance(fl, (bool, SBool)) and E.path.check(B(fl) != B(lh)) == z3.unsat))
+            size_arg = made[0].get('fragment_size_bytes', fs) if len(made) == 1 else fs
             if size_arg is fs:
                 P('next_fragment:fragmenter_gets_the_configured_size', True)
             else:
@@ -544,3 +555,22 @@ def cache_remove(E):
     E.cover('removed')
     x = z3.Int(E.path.fresh_name('sk.x'))
     E.prove('cache.remove:removes_exactly_s', z3.Select(cache.attrs['_frames_by_stream_id'].has, x) == z3.And(z3.Select(has0, x), x != I(s)))
+
+
+@harness('c03.fragmenter.two_modes', ['C03', 'C01'], functions=[FF + '.__init__', FF + '._get_next_fragment_body_size'],
+         assumptions=['concrete fragment size 64 and header sizes 6 / 10, so that any memo keyed on them is exercised'])
+def fragmenter_two_modes(E):
+    """A fragmenter's budgets are a function of ITS OWN header size, fragment size and framing mode: two fragmenters of one
+    process that differ only in the framing mode (one transport with the 3-byte length prefix, one without), created in
+    either order, each budget the prefix exactly when their own transport has it."""
+    hdr = [6, 10][E.path.choice(2, 'header')]
+    order = [True, False] if E.path.choice(2, 'first-created-for') == 0 else [False, True]
+    ok = True
+    for lh in order:
+        fr = E.call(E.lookup(FF), [E.fresh_bytes('d'), E.fresh_bytes('m'), hdr, 64, lh])
+        first = E.call(E.getattr(fr, '_get_next_fragment_body_size'), [])
+        E.setattr(fr, '_is_first', False)
+        later = E.call(E.getattr(fr, '_get_next_fragment_body_size'), [])
+        ok = ok and first == 64 - hdr - (3 if lh else 0) and later == 64 - 6 - (3 if lh else 0)
+    E.cover('both-created')
+    E.prove('fragmenter:budgets_depend_only_on_its_own_sizes_and_framing_mode[in either order of creation]', ok)
